@@ -154,7 +154,10 @@ def _api(S, spec):
     from crosshair.tracers import NoTracing
     from treadmill import exc, utils
     from treadmill.api import allocation as A
-    A = importlib.reload(A)      # no module-level state from earlier paths
+    if spec.get('redefine'):
+        # no module-level state from earlier paths (costs ~50 ms per path, so
+        # only where two requests share one process)
+        A = importlib.reload(A)
     utils.cpu_units = _ORIG.get('cpu_units', utils.cpu_units)
     G = 2 ** 30
     part = {'cpu': '200%', 'memory': '4G', 'disk': '4G', 'limits': []}
@@ -187,7 +190,7 @@ def _api(S, spec):
             mem_bytes = 2095848 * 1024
         allocs.append(al)
         avals.append((c, mem_bytes, (1 if odd else m) * (2 ** 20 if odd else G)))
-    c = (0, 100, 150, 50)[S.choice('req_cpu', 4 if spec['n'] == 0 else 3)]
+    c = (0, 100, 150, 50)[S.choice('req_cpu', {0: 4, 1: 2}.get(spec['n'], 3))]
     mi = S.choice('req_memG', 6 if spec['n'] == 1 else 4)
     m = (0, 1, 3, 5, 0, 0)[mi]
     d = (1, 5)[S.choice('req_diskG', 2)]
